@@ -17,7 +17,7 @@ from .core import cq_bool, cq_list, cq_pos
 THEOREMS = ["C14_subst_sound", "C14_pass_replace_parameter_values", "C14_pass_constant_assignments",
             "C14_pass_eliminable_forward_partial", "C14_substitution_step_partial", "C14_alias_shapes_partial",
             "C14_slow_path_refuted", "C14_pass_replace_expressions", "C14_pass_eliminable",
-            "C14_pass_replace_constant_values_partial", "C14_pass_eliminable_states_partial", "C14_alias_add_sound", "C14_pass_detect_aliases",
+            "C14_pass_replace_constant_values_partial", "C14_pass_eliminable_states_partial", "C14_dexpr_is_derivative", "C14_alias_add_sound", "C14_pass_detect_aliases",
             "C14_simplify_once_preserves", "C14_preserves", "C14_preserves_example", "C14_example"]
 
 MODELLED_BOOL = ["replace_parameter_expressions", "replace_constant_expressions",
